@@ -182,42 +182,70 @@ def call(conn, op, a):
 
 
 def rand_state(rng):
-    """an initial BMC state with non-default contents for the objects the histories address"""
+    """an initial BMC state with non-default contents for the objects the histories address.  Stored bytes are
+    drawn with ALL their bits at random (reserved and neighbour bits included): reads are judged on arbitrary
+    reachable states - another client, the BIOS or a raw setter may have written them - not only on states that
+    the library's own typed writes produce."""
+    byte = lambda: rng.randrange(256)  # noqa
     s = {}
     if rng.random() < 0.7:
-        s[(B.K_CHASSIS, 0, 0)] = [rng.randrange(128), rng.randrange(32), rng.randrange(128), rng.randrange(256)]
+        s[(B.K_CHASSIS, 0, 0)] = [byte(), byte(), byte(), byte()]
     if rng.random() < 0.5:
         minor = rng.choice([0x00, 0x09, 0x10, 0x35, 0x99, 0xff])
-        s[(B.K_DEVID, 0, 0)] = ([rng.randrange(256), rng.randrange(256), rng.randrange(256), minor,
-                                 rng.choice([0x51, 0x02, 0x20, 0x01]), rng.randrange(256)]
-                                + [rng.randrange(256) for _ in range(5)] + ([] if rng.random() < 0.3 else [9, 8, 7, 6]))
+        s[(B.K_DEVID, 0, 0)] = ([byte(), byte(), byte(), minor, rng.choice([0x51, 0x02, 0x20, 0x01]), byte()]
+                                + [byte() for _ in range(5)] + ([] if rng.random() < 0.3 else [9, 8, 7, 6]))
     for _ in range(rng.randrange(4)):
         s[(B.K_SENS, rng.randrange(4), rng.choice([0, 1, 2, 0x7f, 0x80, 0xfe, 0xff]))] = \
-            [rng.randrange(256), rng.choice([0xc0, 0xe0, 0x20, 0x00]), rng.randrange(256), rng.randrange(256)][:rng.choice([2, 3, 4, 4])]
+            [byte(), byte(), byte(), byte()][:rng.choice([2, 3, 4, 4])]
     for _ in range(rng.randrange(3)):
-        s[(B.K_THRMASK, rng.randrange(4), rng.choice([0, 1, 2, 0x7f, 0x80, 0xfe, 0xff]))] = [rng.randrange(64)]
+        s[(B.K_THRMASK, rng.randrange(4), rng.choice([0, 1, 2, 0x7f, 0x80, 0xfe, 0xff]))] = [byte()]
+    for _ in range(rng.randrange(3)):
+        s[(B.K_THR, rng.randrange(4), rng.choice([0, 1, 2, 0x7f, 0x80, 0xfe, 0xff]))] = [byte() for _ in range(6)]
     for _ in range(rng.randrange(5)):
-        st = rng.choice([0, 1, 2, 3, 3, 5, 7])
+        st = rng.choice([0, 1, 2, 3, 3, 5, 7, byte()])
         s[(B.K_LED, rng.choice([0, 1, 255]), rng.choice([0, 1, 255]))] = \
-            [st, rng.choice([0, 0xff, 5, 0xf9]), rng.choice([1, 2, 100, 0xf9, rng.randrange(1, 0xfa)]), rng.randrange(1, 7),
-             rng.choice([0, 0xff, 7, 0xf9]), rng.randrange(256), rng.randrange(1, 7), rng.randrange(128)]
+            [st, rng.choice([0, 0xff, 5, 0xf9, byte()]), rng.choice([1, 2, 100, 0xf9, rng.randrange(1, 0xfa)]), byte(),
+             rng.choice([0, 0xff, 7, 0xf9, byte()]), byte(), byte(), byte()]
     if rng.random() < 0.5:
-        s[(B.K_LAN, rng.choice([0, 1, 2, 7, 14, 15]), 20)] = [rng.randrange(256), rng.choice([0x80, 0x8f, 0x00, 0x81])]
+        s[(B.K_LAN, rng.choice([0, 1, 2, 7, 14, 15]), 20)] = [byte(), byte()]
     if rng.random() < 0.3:
-        s[(B.K_LAN, rng.choice([0, 1, 2]), 4)] = [rng.randrange(5)]
+        s[(B.K_LAN, rng.choice([0, 1, 2]), 4)] = [rng.choice([rng.randrange(5), byte()])]
+    if rng.random() < 0.6:
+        # boot flags: valid device selector in bits 5:2, every other bit of all five bytes at random
+        dev = rng.choice(list(range(10)) + [11, 15, rng.randrange(16)])
+        s[(B.K_BOOT, 5, 0)] = [byte(), dev << 2 | (byte() & 0xc3), byte(), byte(), byte()]
+        s[(B.K_BOOTINV, 5, 0)] = [rng.randrange(2)]
+    if rng.random() < 0.4:
+        s[(B.K_WD, 0, 0)] = [byte() & 0xbf, byte(), byte(), byte(), byte(), byte()]
+        s[(B.K_WDRUN, 0, 0)] = [rng.randrange(2)]
+        s[(B.K_WDPRES, 0, 0)] = [byte(), byte()]
+        s[(B.K_WDINIT, 0, 0)] = [1]
+    for _ in range(rng.randrange(3)):
+        uid = rng.choice([0, 1, 2, 10, 62, 63])
+        s[(B.K_UACC, uid, rng.choice([0, 1, 2, 7, 14, 15]))] = [16 * rng.randrange(16), rng.randrange(16), rng.randrange(16)]
+        if rng.random() < 0.5:
+            s[(B.K_UEN, uid, 0)] = [rng.randrange(2)]
+    if rng.random() < 0.3:
+        s[(B.K_EVRCV, 0, 0)] = [byte(), byte()]
+    for _ in range(rng.randrange(2)):
+        s[(B.K_FAN, rng.choice([0, 1, 2, 3, 254, 255]), 0)] = [byte(), byte()]
+    if rng.random() < 0.3:
+        s[(B.K_FANPROP, rng.choice([0, 1, 2, 3, 254, 255]), 0)] = [byte(), byte(), byte(), byte()]
+    if rng.random() < 0.3:
+        s[(B.K_PWRLVL, rng.choice([0, 1, 2, 3, 254, 255]), rng.randrange(4))] = [byte() for _ in range(rng.choice([3, 4, 8]))]
     for _ in range(rng.randrange(3)):
         ch, itf = rng.choice([0, 1, 15, 63]), rng.randrange(4)
         s[(B.K_PORT, itf, ch)] = [ch | itf << 6, rng.randrange(256), rng.randrange(256), rng.randrange(256), rng.randrange(2)]
     if rng.random() < 0.3:
-        s[(B.K_SIGCLASS, rng.randrange(4), rng.choice([0, 1, 15, 63]))] = [rng.randrange(16)]
+        s[(B.K_SIGCLASS, rng.randrange(4), rng.choice([0, 1, 15, 63]))] = [rng.randrange(256)]
     if rng.random() < 0.4:
-        s[(B.K_PWRCHST, rng.choice([1, 2, 3, 16]), 0)] = [rng.randrange(128)]
+        s[(B.K_PWRCHST, rng.choice([1, 2, 3, 16]), 0)] = [rng.randrange(256)]
     if rng.random() < 0.3:
-        s[(B.K_PMGLOBAL, 0, 0)] = [rng.choice([2, 16]), rng.randrange(16)]
+        s[(B.K_PMGLOBAL, 0, 0)] = [rng.choice([2, 16]), rng.randrange(256)]
     if rng.random() < 0.4:
         s[(B.K_GUID, 0, 0)] = [rng.randrange(256) for _ in range(16)]
     if rng.random() < 0.4:
-        s[(B.K_AUTHCAP, rng.choice([0, 1, 2, 7, 14, 15]), 0)] = [rng.randrange(256), rng.randrange(64), rng.randrange(4), 1, 2, 3, 4]
+        s[(B.K_AUTHCAP, rng.choice([0, 1, 2, 7, 14, 15]), 0)] = [rng.randrange(256), rng.randrange(256), rng.randrange(256), 1, 2, 3, 4]
     if rng.random() < 0.4:
         s[(B.K_ROLLBACK, 0, 0)] = rng.choice([[0], [1, 0], [0, 50], [2, 100]])
     if rng.random() < 0.3:
@@ -240,8 +268,6 @@ def rand_state(rng):
         s[(B.K_HPMSTAT, 0, 0)] = [rng.choice([0, 0x31, 0x32, 0x33]), rng.choice([0, 0x80, 0xd5])]
     if rng.random() < 0.4:
         s[(B.K_SELFTEST, 0, 0)] = [rng.choice([0x55, 0x56, 0x57, 0x58, 0xff]), rng.randrange(256)]
-    if rng.random() < 0.5:
-        s[(B.K_BOOT, 5, 0)] = [rng.choice([0x80, 0xc0, 0xa0, 0xe0]), rng.choice(list(range(10)) + [11, 15]) << 2, 0, 0, 0]
     return s
 
 
